@@ -1,4 +1,6 @@
 import BasicModel.Lemmas.Execute
+import BasicModel.Lemmas.Inspect
+import BasicModel.Lemmas.LinkedInv
 /-
   C13 — Interrupt, STOP and END are transparent under CONT; slicing does not matter.
 
@@ -557,6 +559,461 @@ example : runExecutes env0 1 [1, 1] looping = execute env0 looping 3 :=
   quantum_split_execute env0 1 [1, 1] looping rfl rfl
 example : runQuanta env0 [1, 1, 1] looping = slice env0 3 looping := quantum_split env0 [1, 1, 1] looping
 example : (slice env0 3 looping).2.2 = 3 ∧ (slice env0 3 looping).2.1.pc = 0 := by decide
+
+/-! ### C13 end to end at the session API
+
+  The driver's calls, in order: `interrupt`; `execute` once or twice (the report: a line break if
+  the column is not 0, then `?BREAK IN line`); `execute` any number of times at the prompt (the
+  first prints READY, the others report `stopped`); `enter "CONT"`; `execute`.  The quanta of
+  the calls before CONT are arbitrary (no instruction runs).  Hypotheses on the interrupted state
+  `s`, all of them established by the direct line (RUN, GOTO …) that started the program and kept
+  by every instruction that does not edit the listing:
+
+  * `s.entryAddress = s.program.directAddress`, `s.listing.directErrors = []`,
+    `s.listing.indirectErrors = s.program.indirectErrors` (`enterDirect_entry`);
+  * `s.dirty = false` (`enterDirect_clean`), `Program.Linked s.program`;
+  * `tron = false`; two size bounds far below the limits (`directAddress + 3 ≤ 65535`, the DATA
+    segment within its limit) so that compiling `CONT` cannot overflow.
+
+  `LexCont env` says that the lexer (a separate model) reads `CONT` as the statement word. -/
+
+/-- the standing hypotheses on a running program that is going to be stopped and continued -/
+structure Resumable (s : Runtime) : Prop where
+  running : s.state = .running
+  entry : s.entryAddress = s.program.directAddress
+  clean : s.dirty = false
+  troff : s.tron = false
+  noDirectErrors : s.listing.directErrors = []
+  indirectErrors : s.listing.indirectErrors = s.program.indirectErrors
+  linked : Program.Linked s.program
+  codeRoom : s.program.directAddress + 3 ≤ Gen.stackMaxLen
+  dataRoom : s.program.link.data.size ≤ Gen.stackMaxLen
+
+theorem interrupt_inside (s : Runtime) (h : s.pc < s.entryAddress) :
+    interrupt s = { s with state := .interrupt, cont := s.state, contPc := s.pc } :=
+  interrupt_saves s h
+
+/-- interrupt → report → prompt → CONT → the instruction `Cont`: the events are the line break
+    (iff the column was not 0), `?BREAK IN line`, READY and `stopped`s, then `running`; the state
+    is `resumed s` — `s` itself up to `printCol = 0`, `cont = stopped`, `contPc`, `tr = none`
+    and the direct code (`resumed_fields`, `resumed_sim`); with a larger quantum the last call of
+    `execute` goes on from there. -/
+theorem interrupt_break_cont_transparent (env : Env) (hlex : LexCont env) (s : Runtime)
+    (q₁ q₂ : Nat) (qs : List Nat) (hr : Resumable s) (hpc : s.pc < s.entryAddress) :
+    let r₁ := execList env (reportQuanta s q₁ q₂) (interrupt s)
+    let r₂ := execList env qs r₁.1
+    let v := enter env r₂.1 "CONT".toList
+    r₁.2 = (if s.printCol > 0 then [.print ['\n']] else []) ++ [.errors [breakError s]] ∧
+    r₂.2 = (match qs with
+            | [] => []
+            | _ :: rest => .print (promptLine s) :: List.replicate rest.length .stopped) ∧
+    execute env v 1 = (resumed s, .running) ∧
+    (∀ m, execute env v (m + 1) = execute env (resumed s) m) := by
+  intro r₁ r₂ v
+  have he : s.entryAddress ≠ 0 := by rw [hr.entry]; exact hr.linked.direct
+  have h1 : r₁ = (broken s s.entryAddress,
+      (if s.printCol > 0 then [.print ['\n']] else []) ++ [.errors [breakError s]]) := by
+    show execList env (reportQuanta s q₁ q₂) (interrupt s) = _
+    rw [interrupt_inside s hpc]
+    have := report_interrupt env q₁ q₂ { s with state := .interrupt, cont := s.state, contPc := s.pc } rfl
+    rw [show reportQuanta s q₁ q₂ =
+      reportQuanta { s with state := .interrupt, cont := s.state, contPc := s.pc } q₁ q₂ from rfl, this, hr.running]
+    rfl
+  have h2 : r₂ = (broken s (if qs.isEmpty then s.entryAddress else 0),
+       match qs with
+       | [] => []
+       | _ :: rest => .print (promptLine s) :: List.replicate rest.length .stopped) := by
+    show execList env qs r₁.1 = _
+    rw [h1]
+    exact prompt_after_report env s qs he
+  have h3 := cont_resumes env hlex s (if qs.isEmpty then s.entryAddress else 0) hr.entry hr.clean hr.troff
+    hr.noDirectErrors hr.indirectErrors hr.linked hr.codeRoom hr.dataRoom hr.running
+  have hv : v = enter env (broken s (if qs.isEmpty then s.entryAddress else 0)) "CONT".toList := by
+    show enter env r₂.1 "CONT".toList = _
+    rw [h2]
+  refine ⟨by rw [h1], by rw [h2], ?_, ?_⟩
+  · rw [hv]; exact h3.1
+  · rw [hv]; exact h3.2
+
+/-- what `resumed s` is, field by field: the program goes on exactly where it was -/
+theorem resumed_fields (s : Runtime) :
+    (resumed s).pc = s.pc ∧ (resumed s).state = s.state ∧ (resumed s).stack = s.stack ∧
+    (resumed s).vars = s.vars ∧ (resumed s).functions = s.functions ∧ (resumed s).rand = s.rand ∧
+    (resumed s).listing = s.listing ∧ (resumed s).entryAddress = s.entryAddress ∧
+    (resumed s).tron = s.tron ∧ (resumed s).dirty = s.dirty ∧ (resumed s).prompt = s.prompt ∧
+    (resumed s).printCol = 0 ∧ (resumed s).cont = .stopped ∧ (resumed s).contPc = s.pc ∧
+    (resumed s).tr = none ∧ (resumed s).program = contProgram s.program :=
+  ⟨rfl, rfl, rfl, rfl, rfl, rfl, rfl, rfl, rfl, rfl, rfl, rfl, rfl, rfl, rfl, rfl⟩
+
+/-- … and its program is the old one with `Cont; End` as direct code: same instructions below
+    `directAddress`, same DATA and cursor, same line-number table, same diagnostics -/
+theorem resumed_program (s : Runtime) (hr : Resumable s) :
+    Program.ContOf s.program (resumed s).program :=
+  contOf_contProgram s.program hr.linked hr.codeRoom hr.dataRoom
+
+/-- … and it simulates `s`: `s ≈ resumed s` (`Sim`: equal on all fields except `cont`, `contPc`,
+    `tr`, the code from `directAddress` on and the compile-time fields of the program; the print
+    columns agree — `col` — iff the program was interrupted at column 0) -/
+theorem resumed_sim (s : Runtime) (hr : Resumable s) (col : Bool) (hcol : col = true → s.printCol = 0) :
+    Sim col s (resumed s) :=
+  Runtime.resumed_sim s col hcol hr.troff (resumed_program s hr)
+
+/-- The resumed run coincides with the uninterrupted one.  From `s` and `resumed s`, `n` further
+    instructions give the same result — the same event or error, or both quanta exhausted —
+    after the same number of instructions, in states that are again `≈`; and so does the call
+    `execute … n` at the API, up to the READY prompt printed when the program ends, which starts
+    with a line break iff the column is not 0.
+
+    `_partial`, the restriction being `StaysInProg`: as long as the slice goes on, the next
+    instruction of the uninterrupted run lies below `directAddress` (the program proper, not the
+    direct code, which differs) and is not `Cont` (a CONT statement *inside* the program reads the
+    continuation, which the break has consumed) nor — unless `col`, i.e. unless the break
+    happened at column 0 — `Tab` or `Pos` (TAB( and POS( read the print column, which the
+    `?BREAK` report resets: the "line break it forces"). -/
+theorem resumed_run_coincides_partial (env : Env) (s : Runtime) (hr : Resumable s) (col : Bool)
+    (hcol : col = true → s.printCol = 0) (n : Nat)
+    (hstay : StaysInProg col env (hasIndirectErrors s) n s) :
+    (slice env n (resumed s)).1 = (slice env n s).1 ∧
+    (slice env n (resumed s)).2.2 = (slice env n s).2.2 ∧
+    Sim col (slice env n s).2.1 (slice env n (resumed s)).2.1 ∧
+    Sim col (execute env s n).1 (execute env (resumed s) n).1 ∧
+    ((col = true ∨ (slice env n s).1 ≠ .ok (some .stopped)) →
+      (execute env (resumed s) n).2 = (execute env s n).2) := by
+  have hsim := resumed_sim s hr col hcol
+  have h1 := sliceRun_sim env (hasIndirectErrors s) n hsim hstay
+  have h2 := execute_sim env n hsim hr.running hr.noDirectErrors hstay
+  refine ⟨?_, ?_, ?_, h2.1, h2.2⟩
+  · unfold slice; rw [hasIndirectErrors_sim hsim]; exact h1.1
+  · unfold slice; rw [hasIndirectErrors_sim hsim]; exact h1.2.1
+  · unfold slice; rw [hasIndirectErrors_sim hsim]; exact h1.2.2
+
+/-- The two together, at the API: after interrupt, report, prompt and `CONT`, the call
+    `execute … (m + 1)` (one instruction for `Cont`, `m` for the program) ends in a state `≈` the
+    one the uninterrupted `execute … m` ends in, with the same event — under the restriction of
+    `resumed_run_coincides_partial`. -/
+theorem interrupted_run_coincides_partial (env : Env) (hlex : LexCont env) (s : Runtime)
+    (q₁ q₂ : Nat) (qs : List Nat) (m : Nat) (col : Bool) (hr : Resumable s) (hpc : s.pc < s.entryAddress)
+    (hcol : col = true → s.printCol = 0)
+    (hstay : StaysInProg col env (hasIndirectErrors s) m s) :
+    let v := enter env (execList env qs (execList env (reportQuanta s q₁ q₂) (interrupt s)).1).1 "CONT".toList
+    Sim col (execute env s m).1 (execute env v (m + 1)).1 ∧
+    ((col = true ∨ (slice env m s).1 ≠ .ok (some .stopped)) →
+      (execute env v (m + 1)).2 = (execute env s m).2) := by
+  intro v
+  have h1 := (interrupt_break_cont_transparent env hlex s q₁ q₂ qs hr hpc).2.2.2 m
+  have h2 := resumed_run_coincides_partial env s hr col hcol m hstay
+  show Sim col (execute env s m).1 (execute env v (m + 1)).1 ∧ _
+  rw [show execute env v (m + 1) = execute env (resumed s) m from h1]
+  exact ⟨h2.2.2.2.1, h2.2.2.2.2⟩
+
+/-- one instruction, from any two `≈` states -/
+theorem step_coincides (env : Env) (h : Bool) (col : Bool) (s t : Runtime) (hst : Sim col s t)
+    (hin : InProg col s) :
+    ((step env h).run.run t).1 = ((step env h).run.run s).1 ∧
+    Sim col ((step env h).run.run s).2 ((step env h).run.run t).2 :=
+  step_sim env h hst hin
+
+/-- STOP as the next instruction of a running program, then report → prompt → CONT → `Cont`:
+    the state is the one in which the STOP was skipped (`pc` after it), up to the same fields. -/
+theorem stop_cont_transparent (env : Env) (hlex : LexCont env) (s : Runtime)
+    (n q₁ q₂ : Nat) (qs : List Nat) (hr : Resumable s)
+    (hop : s.program.link.ops[s.pc]? = some .stop)
+    (hpc : s.pc + 1 < s.entryAddress) (hfull : isFull s = false) :
+    let r₀ := execute env s (n + 1)
+    let r₁ := execList env (reportQuanta s q₁ q₂) r₀.1
+    let r₂ := execList env qs r₁.1
+    let v := enter env r₂.1 "CONT".toList
+    r₀.2 = .running ∧
+    r₁.2 = (if s.printCol > 0 then [.print ['\n']] else []) ++
+      [.errors [(Error.mk' Code.break).inLine (lineNumber { s with pc := s.pc + 1 })]] ∧
+    r₂.2 = (match qs with
+            | [] => []
+            | _ :: rest => .print (promptLine s) :: List.replicate rest.length .stopped) ∧
+    execute env v 1 = (resumed { s with pc := s.pc + 1 }, .running) ∧
+    (∀ m, execute env v (m + 1) = execute env (resumed { s with pc := s.pc + 1 }) m) := by
+  intro r₀ r₁ r₂ v
+  have he : s.entryAddress ≠ 0 := by rw [hr.entry]; exact hr.linked.direct
+  have h0 : r₀ = _ := stop_saves env n s hr.running hr.noDirectErrors hr.troff hop hpc hfull
+  have h1 : r₁ = (broken { s with pc := s.pc + 1 } s.entryAddress,
+      (if s.printCol > 0 then [.print ['\n']] else []) ++
+        [.errors [(Error.mk' Code.break).inLine (lineNumber { s with pc := s.pc + 1 })]]) := by
+    show execList env (reportQuanta s q₁ q₂) r₀.1 = _
+    rw [h0]
+    exact report_runtimeError env q₁ q₂
+      { s with pc := s.pc + 1, cont := .running, contPc := s.pc + 1,
+               state := .runtimeError ((Error.mk' Code.break).inLine (lineNumber { s with pc := s.pc + 1 })) }
+      _ rfl
+  have h2 : r₂ = (broken { s with pc := s.pc + 1 } (if qs.isEmpty then s.entryAddress else 0),
+       match qs with
+       | [] => []
+       | _ :: rest => .print (promptLine s) :: List.replicate rest.length .stopped) := by
+    show execList env qs r₁.1 = _
+    rw [h1]
+    exact prompt_after_report env { s with pc := s.pc + 1 } qs he
+  have h3 := cont_resumes env hlex { s with pc := s.pc + 1 } (if qs.isEmpty then s.entryAddress else 0)
+    hr.entry hr.clean hr.troff hr.noDirectErrors hr.indirectErrors hr.linked hr.codeRoom hr.dataRoom hr.running
+  have hv : v = enter env (broken { s with pc := s.pc + 1 } (if qs.isEmpty then s.entryAddress else 0))
+      "CONT".toList := by
+    show enter env r₂.1 "CONT".toList = _
+    rw [h2]
+  refine ⟨by rw [h0], by rw [h1], by rw [h2], ?_, ?_⟩
+  · rw [hv]; exact h3.1
+  · rw [hv]; exact h3.2
+
+/-- END in the middle of a program (more code follows), then prompt → CONT → `Cont`: READY is
+    printed by the same call of `execute`; CONT resumes at the next instruction. -/
+theorem end_cont_transparent (env : Env) (hlex : LexCont env) (s : Runtime)
+    (n : Nat) (qs : List Nat) (hr : Resumable s)
+    (hop : s.program.link.ops[s.pc]? = some .end) (hpc : s.pc + 1 < s.entryAddress) :
+    let r₀ := execute env s (n + 1)
+    let r₂ := execList env qs r₀.1
+    let v := enter env r₂.1 "CONT".toList
+    r₀.2 = .print ((if s.printCol > 0 then ['\n'] else []) ++ promptLine s) ∧
+    r₂.2 = List.replicate qs.length .stopped ∧
+    execute env v 1 = (resumed { s with pc := s.pc + 1 }, .running) ∧
+    (∀ m, execute env v (m + 1) = execute env (resumed { s with pc := s.pc + 1 }) m) := by
+  intro r₀ r₂ v
+  have h0 : r₀ = (broken { s with pc := s.pc + 1 } 0,
+      .print ((if s.printCol > 0 then ['\n'] else []) ++ promptLine s)) := by
+    show execute env s (n + 1) = _
+    rw [end_saves env n s hr.running hr.noDirectErrors hr.troff hop hpc]
+    rfl
+  have h2 : r₂ = (broken { s with pc := s.pc + 1 } 0, List.replicate qs.length .stopped) := by
+    show execList env qs r₀.1 = _
+    rw [h0]
+    exact execList_at_prompt env qs _ rfl rfl
+  have h3 := cont_resumes env hlex { s with pc := s.pc + 1 } 0
+    hr.entry hr.clean hr.troff hr.noDirectErrors hr.indirectErrors hr.linked hr.codeRoom hr.dataRoom hr.running
+  have hv : v = enter env (broken { s with pc := s.pc + 1 } 0) "CONT".toList := by
+    show enter env r₂.1 "CONT".toList = _
+    rw [h2]
+  refine ⟨by rw [h0], by rw [h2], ?_, ?_⟩
+  · rw [hv]; exact h3.1
+  · rw [hv]; exact h3.2
+
+/-- Inspecting variables between the break and CONT does not disturb the continuation.  After the
+    report of a break of `s` (state `broken s ea`, whether or not READY was printed), a direct
+    line `str` is entered whose code consists of harmless instructions (a PRINT of expressions
+    over simple variables: literals, fetches, arithmetic, side-effect-free built-ins, `Print`)
+    and is balanced (never reaches below its own operands, leaves none behind — `Balanced`, a
+    decidable check of the code), and the driver calls `execute` any number of times.  Unless
+    one of these calls ended in a runtime error (the report of an error in direct mode clears
+    the continuation), the continuation, the variables, the function table and the DATA cursor
+    are untouched, and once the prompt is back the stack is the one the line found and CONT
+    resumes the program in a state `t ≈ s`. -/
+theorem inspect_between_harmless (env : Env) (hlex : LexCont env) (s : Runtime) (ea : Nat)
+    (str : Str) (line : Line) (code : Array Opcode) (qs : List Nat) (col : Bool)
+    (hr : Resumable s) (hcol : col = true → s.printCol = 0)
+    (hlen : RStd.utf8Len str ≤ Gen.maxLineLen) (hline : env.lex str = line)
+    (hne : line.tokens.isEmpty = false) (hp : Program.PlainLine line code)
+    (hharm : ∀ (i : Nat) (op : Opcode), code[i]? = some op → harmless op = true)
+    (hbal : Balanced code)
+    (hsize : s.program.directAddress + code.size + 2 ≤ Gen.stackMaxLen) :
+    let u := enter env (broken s ea) str
+    let w := (execList env qs u).1
+    (∀ k, k ≤ qs.length → ¬ Failed (execList env (qs.take k) u).1) →
+    (w.state = .running ∨ w.state = .stopped) ∧
+    w.cont = .running ∧ w.contPc = s.pc ∧ w.vars = s.vars ∧ w.functions = s.functions ∧
+    w.program.link.dataPos = s.program.link.dataPos ∧
+    (w.state = .stopped →
+      w.stack = s.stack ∧
+      ∃ t, execute env (enter env w "CONT".toList) 1 = (t, .running) ∧
+        (∀ m, execute env (enter env w "CONT".toList) (m + 1) = execute env t m) ∧ Sim col s t) := by
+  intro u w hnf
+  have hu : u = enterDirect (broken s ea) line :=
+    enter_direct env (broken s ea) str line rfl hlen hline hp.number hne
+  obtain ⟨h1, h2, h3, h4, h5, c1, c2, c3, c4, c5, c6, c7, c8, c9, c10⟩ :=
+    inspect_start s ea line code hp hharm hr.clean hr.linked hr.troff hsize hr.dataRoom
+  obtain ⟨d1, d2⟩ := inspect_start_direct s ea line code hp hr.clean hr.linked hsize hr.dataRoom
+  rw [← hu] at h1 h2 h3 h4 h5 c1 c2 c3 c4 c5 c6 c7 c8 c9 c10 d1 d2
+  have hk : Kept u w ∧ (w.state = .running ∨ (w.state = .stopped ∧ w.printCol = 0 ∧ w.stack = u.stack)) := by
+    rcases inspect_execList_stack env qs code u u h1 d2 h2 h3 h4
+        (.inl ⟨h5, stackInv_start code u hbal d1⟩) with (h | h) | ⟨k, hk, hf⟩
+    · exact ⟨h.1.kept, .inl h.1.state⟩
+    · exact ⟨h.1.kept, .inr ⟨h.1.state, h.1.printCol, h.2⟩⟩
+    · exact absurd hf (hnf k hk)
+  obtain ⟨hkept, hst⟩ := hk
+  refine ⟨hst.elim .inl (fun h => .inr h.1), hkept.cont.trans c1, hkept.contPc.trans c2, hkept.vars.trans c3,
+    hkept.functions.trans c4, ?_, ?_⟩
+  · rw [hkept.program]; exact c10.dataPos
+  · intro hstop
+    have hst' : w.printCol = 0 ∧ w.stack = u.stack := by
+      rcases hst with h | h
+      · rw [hstop] at h; cases h
+      · exact h.2
+    have hstack : w.stack = s.stack := hst'.2.trans c5
+    have hlist : w.listing = s.listing := by
+      rw [hkept.listing, c9, ← hr.indirectErrors, ← hr.noDirectErrors]
+    have hbl : BrokenLike s w :=
+      ⟨hstop, hkept.cont.trans c1, hkept.contPc.trans c2, hstack, hkept.vars.trans c3,
+       hkept.functions.trans c4, hkept.rand.trans c6, hkept.prompt.trans c7, hkept.dirty.trans c8,
+       hkept.tron.trans h2, hlist, hst'.1, by rw [hkept.program]; exact SameBelow.of_directOf c10,
+       by rw [hkept.program]; exact c10.linked⟩
+    exact ⟨hstack, cont_from_brokenLike env hlex s w col hcol hr.entry hr.noDirectErrors hr.indirectErrors
+      hr.codeRoom hr.dataRoom hr.running hr.troff hr.clean hbl⟩
+
+/-- where `Program.Linked` comes from: every direct line entered at a linked program that was not
+    edited leaves a linked program with the same `directAddress`; and a direct line compiled
+    onto any program whose direct code (if marked at all) lies within the code leaves a linked
+    one — in particular the first direct line of a session -/
+theorem linked_is_invariant (s : Runtime) (line : Line) (hn : line.number = none) (hd : s.dirty = false)
+    (hl : Program.Linked s.program) :
+    Program.Linked (enterDirect s line).program ∧
+    (enterDirect s line).program.directAddress = s.program.directAddress :=
+  enterDirect_linked s line hn hd hl
+
+theorem linked_first_direct_line (line : Line) (hn : line.number = none) :
+    Program.Linked (({} : Program).codegenLine line).linkProg :=
+  (Program.linked_codegenLine {} line hn (Nat.le_refl _)).1
+
+/-! ### non-vacuity of the end-to-end theorems
+
+  The parser model cannot be evaluated by the kernel on lines with line-number operands (RUN,
+  GOTO: `Float32.ofNat` is opaque), so the running state is written down as the compiler leaves
+  it — program `10 A=B / 20 STOP / 30 A=B / 40 END / 50 A=B`, started by RUN — and the
+  hypotheses of the theorems are checked on it by evaluation.  The lines typed at the prompt
+  (`CONT`, `PRINT A`) do go through `enter`, with the hand-written lexer `env1`. -/
+
+/-- the tokens of the direct line `PRINT A` -/
+def printLine : Line := ⟨none, [.word .print, .whitespace 1, .ident (.plain "A".toList)]⟩
+
+def env1 : Env :=
+  { lex := fun str =>
+      if str = "CONT".toList then contLine else if str = "PRINT A".toList then printLine else ⟨none, []⟩,
+    lineRenum := fun _ l => l }
+
+theorem lexCont_env1 : LexCont env1 := rfl
+
+def prog0 : Program :=
+  { directAddress := 9,
+    link := { ops := #[.push "B".toList, .pop "A".toList, .stop, .push "B".toList, .pop "A".toList, .end,
+                       .push "B".toList, .pop "A".toList, .end, .clear, .jump 0, .end],
+              directSet := true,
+              symbols := [(10, (0, 0)), (20, (2, 0)), (30, (3, 0)), (40, (5, 0)), (50, (6, 0)), (65530, (9, 0))] } }
+
+/-- in line 10, between the fetch of `B` and the store to `A`, at column 3 -/
+def s0 : Runtime :=
+  { state := .running, pc := 1, entryAddress := 9, printCol := 3, stack := #[.int 5],
+    vars := { vars := [("B".toList, .int 5)] }, program := prog0 }
+
+theorem resumable_s0 : Resumable s0 :=
+  ⟨rfl, rfl, rfl, rfl, rfl, rfl, ⟨rfl, rfl, by decide, by decide⟩, by decide, by decide⟩
+
+/-- the events of the report: a line break (column 3), then `?BREAK IN 10` -/
+example : (execList env1 (reportQuanta s0 7 7) (interrupt s0)).2 =
+    [.print ['\n'], .errors [(Error.mk' Code.break).inLine (some 10)]] :=
+  (interrupt_break_cont_transparent env1 lexCont_env1 s0 7 7 [7, 7] resumable_s0 (by decide)).1
+
+/-- two calls at the prompt: READY, `stopped` -/
+example : (execList env1 [7, 7] (execList env1 (reportQuanta s0 7 7) (interrupt s0)).1).2 =
+    [.print "READY.\n".toList, .stopped] :=
+  (interrupt_break_cont_transparent env1 lexCont_env1 s0 7 7 [7, 7] resumable_s0 (by decide)).2.1
+
+/-- CONT: the program is back where it was -/
+example : execute env1 (enter env1 (execList env1 [7, 7]
+      (execList env1 (reportQuanta s0 7 7) (interrupt s0)).1).1 "CONT".toList) 1 = (resumed s0, .running) :=
+  (interrupt_break_cont_transparent env1 lexCont_env1 s0 7 7 [7, 7] resumable_s0 (by decide)).2.2.1
+
+example : (resumed s0).pc = 1 ∧ (resumed s0).stack = #[.int 5] ∧ (resumed s0).printCol = 0 ∧
+    (resumed s0).state = .running ∧ (resumed s0).entryAddress = 9 := ⟨rfl, rfl, rfl, rfl, rfl⟩
+
+theorem inProg_of (col : Bool) (s : Runtime) (op : Opcode) (h1 : s.pc < s.program.directAddress)
+    (h2 : s.program.link.ops[s.pc]? = some op) (h3 : simOk col op = true) : InProg col s :=
+  ⟨h1, fun op' h => by rw [h2] at h; cases h; exact h3⟩
+
+/-- the next two instructions (`Pop A`, then the STOP of line 20) are in the program proper -/
+theorem stays_s0 : StaysInProg false env1 (hasIndirectErrors s0) 2 s0 := by
+  intro k hk _
+  match k, hk with
+  | 0, _ => exact inProg_of false _ (.pop "A".toList) (by decide) (by decide) rfl
+  | 1, _ => exact inProg_of false _ .stop (by decide) (by decide) rfl
+
+/-- the resumed run and the uninterrupted one: both end with the BREAK of line 20 after two
+    instructions -/
+example : (slice env1 2 (resumed s0)).1 = (slice env1 2 s0).1 ∧
+    (slice env1 2 (resumed s0)).2.2 = (slice env1 2 s0).2.2 :=
+  let h := resumed_run_coincides_partial env1 s0 resumable_s0 false (fun h => by cases h) 2 stays_s0
+  ⟨h.1, h.2.1⟩
+example : (slice env1 2 s0).1 = .error (Error.mk' Code.break) ∧ (slice env1 2 s0).2.2 = 2 ∧
+    (slice env1 2 s0).2.1.vars.vars = [("A".toList, .sng 0x40a00000), ("B".toList, .int 5)] := ⟨rfl, rfl, rfl⟩
+
+/-- … and at the API: the call after CONT (quantum 3) reports what the uninterrupted call
+    (quantum 2) reports -/
+example : (execute env1 (enter env1 (execList env1 [7, 7]
+      (execList env1 (reportQuanta s0 7 7) (interrupt s0)).1).1 "CONT".toList) 3).2 = (execute env1 s0 2).2 :=
+  (interrupted_run_coincides_partial env1 lexCont_env1 s0 7 7 [7, 7] 2 false resumable_s0 (by decide)
+    (fun h => by cases h) stays_s0).2
+    (.inr (by rw [show (slice env1 2 s0).1 = .error (Error.mk' Code.break) from rfl]; nofun))
+
+/-- at the STOP of line 20 -/
+def s1 : Runtime := { s0 with pc := 2, stack := #[], printCol := 0 }
+theorem resumable_s1 : Resumable s1 :=
+  ⟨rfl, rfl, rfl, rfl, rfl, rfl, ⟨rfl, rfl, by decide, by decide⟩, by decide, by decide⟩
+example : execute env1 (enter env1 (execList env1 [7]
+      (execList env1 (reportQuanta s1 7 7) (execute env1 s1 4).1).1).1 "CONT".toList) 1 =
+    (resumed { s1 with pc := 3 }, .running) :=
+  (stop_cont_transparent env1 lexCont_env1 s1 3 7 7 [7] resumable_s1 rfl (by decide) rfl).2.2.2.1
+
+/-- at the END of line 40 -/
+def s2 : Runtime := { s0 with pc := 5, stack := #[], printCol := 0 }
+theorem resumable_s2 : Resumable s2 :=
+  ⟨rfl, rfl, rfl, rfl, rfl, rfl, ⟨rfl, rfl, by decide, by decide⟩, by decide, by decide⟩
+example : execute env1 (enter env1 (execList env1 [7] (execute env1 s2 4).1).1 "CONT".toList) 1 =
+    (resumed { s2 with pc := 6 }, .running) :=
+  (end_cont_transparent env1 lexCont_env1 s2 3 [7] resumable_s2 rfl (by decide)).2.2.1
+
+/-- the direct line `PRINT A` is plain, harmless and balanced -/
+theorem parse_printLine : Parse.parse none printLine.tokens =
+    .ok [.print (0, 5) [.var (.unary (6, 7) (.plain "A".toList)), .string (7, 7) ['\n']]] := by
+  simp [printLine, Parse.parse, Parse.parseTokens, Parse.fuelFor, Parse.statements, Parse.statement, Parse.peek,
+    Parse.next, Parse.nextLoop, Parse.col, Parse.isRem, Parse.printList, Parse.isEnd, Parse.expression,
+    Parse.descend, Parse.binLoop, Parse.isUserFunction, StateT.run, bind, StateT.bind, Except.bind, get, getThe,
+    MonadStateOf.get, StateT.get, pure, StateT.pure, Except.pure, set, StateT.set, modify, modifyGet,
+    MonadStateOf.modifyGet, StateT.modifyGet, Except.map, Token.text, Word.text, TIdent.name, List.lookup,
+    List.isPrefixOf]
+
+def printCode : Array Opcode := #[.push "A".toList, .print, .literal (.str ['\n']), .print]
+
+theorem plainLine_print : Program.PlainLine printLine printCode :=
+  Program.plainLine_of_check printLine printCode _ rfl parse_printLine
+    (by decide +kernel) (by decide +kernel) (by decide +kernel)
+
+theorem harmless_printCode : ∀ (i : Nat) (op : Opcode), printCode[i]? = some op → harmless op = true := by
+  intro i op h
+  match i, h with
+  | 0, h => cases h; rfl
+  | 1, h => cases h; rfl
+  | 2, h => cases h; rfl
+  | 3, h => cases h; rfl
+  | _ + 4, h => cases h
+
+theorem balanced_printCode : Balanced printCode := by decide
+
+/-- `inspect_between_harmless` on `s0`, READY not yet printed, the line `PRINT A`, five calls of
+    `execute`: every hypothesis but "no call ended in a runtime error" holds by evaluation -/
+example (hnf : ∀ k, k ≤ 5 →
+      ¬ Failed (execList env1 ([9, 9, 9, 9, 9].take k) (enter env1 (broken s0 9) "PRINT A".toList)).1)
+    (hdone : (execList env1 [9, 9, 9, 9, 9] (enter env1 (broken s0 9) "PRINT A".toList)).1.state = .stopped) :
+    (execList env1 [9, 9, 9, 9, 9] (enter env1 (broken s0 9) "PRINT A".toList)).1.stack = s0.stack :=
+  ((inspect_between_harmless env1 lexCont_env1 s0 9 "PRINT A".toList printLine printCode [9, 9, 9, 9, 9] false
+    resumable_s0 (fun h => by cases h) (by decide) rfl rfl plainLine_print harmless_printCode
+    balanced_printCode (by decide) hnf).2.2.2.2.2.2 hdone).1
+
+/-- … and on the state the line `PRINT A` compiles to (written down, as `s0` is), the calls do
+    not fail (A is not yet assigned: ` 0 `, line break, READY, `stopped`); continuation, stack and
+    variables as before -/
+def u0 : Runtime :=
+  { broken s0 9 with
+    state := .running, pc := 9,
+    program := { prog0 with link := { prog0.link with
+      ops := #[.push "B".toList, .pop "A".toList, .stop, .push "B".toList, .pop "A".toList, .end,
+               .push "B".toList, .pop "A".toList, .end,
+               .push "A".toList, .print, .literal (.str ['\n']), .print, .end] } } }
+
+example : (execList env1 [9, 9, 9, 9, 9] u0).1.state = .stopped ∧
+    (execList env1 [9, 9, 9, 9, 9] u0).1.cont = .running ∧
+    (execList env1 [9, 9, 9, 9, 9] u0).1.contPc = 1 ∧ (execList env1 [9, 9, 9, 9, 9] u0).1.stack = #[.int 5] ∧
+    (execList env1 [9, 9, 9, 9, 9] u0).1.vars.vars = [("B".toList, .int 5)] := ⟨rfl, rfl, rfl, rfl, rfl⟩
 
 end Thm.C13
 end Basic
